@@ -291,9 +291,21 @@ def run_unit(name, tier='quick', use_cache=True, extra_args=(), log=print, degra
             it = next((x for x in asm.items if x['line_start'] <= ln <= x['line_end']), None)
             if it is not None and it.get('changed_tokens') and it.get('annotated') and it['key'].startswith(('fn ', 'impl ')):
                 bad.add((it['module'], it['key']))
+        def _more_bad(ur, known):
+            # the front end stops at the first syntax error: a restructured item further down shows only on the next run
+            extra = set()
+            for ln in (ur.res.get('hard_lines') or []):
+                it2 = next((x for x in ur.asm.items if x['line_start'] <= ln <= x['line_end']), None)
+                if it2 is not None and it2.get('changed_tokens') and it2.get('annotated') and it2['key'].startswith(('fn ', 'impl ')) and (it2['module'], it2['key']) not in known:
+                    extra.add((it2['module'], it2['key']))
+            return extra
         if bad:
             # stage 1: keep the restructured bodies under verification, with their contract headers but without the body hints that no longer fit
-            ur1 = run_unit(name, tier, use_cache, extra_args, log, bare_items=tuple(sorted(bad)))
+            for _round in range(8):
+                ur1 = run_unit(name, tier, use_cache, extra_args, log, bare_items=tuple(sorted(bad)))
+                extra = _more_bad(ur1, bad) if ur1.hard else set()
+                if not extra: break
+                bad |= extra
             still = set()
             if ur1.hard: still = set(bad)
             for f in ur1.failures:
@@ -302,7 +314,11 @@ def run_unit(name, tier='quick', use_cache=True, extra_args=(), log=print, degra
                 ur1.bare = sorted(bad); ur1.degraded = []
                 return ur1
             # stage 2: what still does not verify is assumed (external_body); the other restructured items stay verified from their headers
-            ur2 = run_unit(name, tier, use_cache, extra_args, log, degrade_items=tuple(sorted(still)), bare_items=tuple(sorted(bad - still)))
+            for _round in range(8):
+                ur2 = run_unit(name, tier, use_cache, extra_args, log, degrade_items=tuple(sorted(still)), bare_items=tuple(sorted(bad - still)))
+                extra = _more_bad(ur2, bad) if ur2.hard else set()
+                if not extra: break
+                bad |= extra; still |= extra
             ur2.degraded = sorted(still); ur2.bare = sorted(bad - still)
             return ur2
     ur = UnitResult()
